@@ -16,7 +16,7 @@ CHECKS = {
          "exploration with an exhaustive sub-domain: all strings up to length 4 (quick) / 6 (thorough) over a 73-character class alphabet whose proper prefixes keep the reference outside ground, both parser modes, plus all ordered pairs of a pool of 313 complete/aborted/skipped sequences, digit runs of 1..40 digits and parameters around the machine-integer widths for every final, the three dispatch tables called directly, random long strings and mutated sessions; the listener's dispatch tables are inside the observed system",
          "where the statement is silent the reference follows the documented pyte recogniser; OSC R/P and multi-character OSC codes are don't-care; Cc characters ignored in text comparison", "§6 C03, App. A"),
  "C04": ("per-step Hoare monitor: reference drawing semantics on the implementation's own pre-state; zoo states x text classes, API + parser path",
-         "exploration: ~1M judged draw() calls per quick run over zoo states (pending wrap, IRM, DECAWM off, margins, wide/combining content, 1-column screens) and a 46-character class pool (singles, all ordered pairs, random strings)",
+         "exploration with an exhaustive sub-domain: every Unicode scalar value (1 112 064) drawn between two letters, at the last column and after a double-width character; plus ~1M judged draw() calls per quick run over zoo states (pending wrap, IRM, DECAWM off, margins, wide/combining content, 1-column screens) and a 46-character class pool (singles, all ordered pairs, random strings)",
          "reference semantics written from the statement; width/combining tables trusted; three corners the statement leaves open are accepted either way (DESIGN §6 C04)", "§6 C04"),
  "C05": ("per-step Hoare monitor (closed-form cursor oracle) over enumerated and generated states, API + parser path",
          "exploration: every movement call observed in ~2M executions per quick run is judged against the closed-form rule applied to the implementation's own pre-state; small geometries x regions x DECOM x cursors x P(size) enumerated completely",
@@ -25,7 +25,7 @@ CHECKS = {
          "exploration: every IND/LF/VT/FF/NEL/RI/IL/DL/DECSTBM call (and autowrap at the bottom margin) judged row by row against the reference permutation; all regions x cursor rows x P(lines) enumerated on screens up to 4x6",
          "cell contents (written / never-written / materialised rows) are sampled, not enumerated; two DECSTBM corners accepted either way (DESIGN §6 C06)", "§6 C06"),
  "C07": ("per-step Hoare monitor: expected erased set + cursor rendition, every cursor cell x selector x count, API + parser path",
-         "exploration: every ED/EL/ECH call judged cell by cell; all cursor cells incl. pending wrap x all selectors x P(columns) enumerated on small screens",
+         "exploration with exhaustive sub-domains: every ED/EL/ECH call judged cell by cell; all cursor cells incl. pending wrap x all selectors x P(columns) enumerated on small screens; every Unicode scalar value drawn with the erasing rendition and then erased",
          "contents/renditions sampled from the state zoo", "§6 C07"),
  "C08": ("per-step Hoare monitor: independent SGR fold with computed xterm palette; exhaustive single codes / extended-colour forms / pairs",
          "exploration with exhaustive sub-domains: every SGR code 0..=9999, every 38|48;5;n and boundary 38|48;2;r;g;b form, truncated forms and all ordered pairs of 70 codes from 6 attribute states, API + parser, each followed by drawing a character; plus random lists",
@@ -34,7 +34,7 @@ CHECKS = {
          "exploration: ~4M invariant evaluations per quick run over mixed byte/API/resize/DECCOLM histories; a violation is attributed to the call after which it first holds; display() length checked on forks",
          "the invariant is evaluated on the normalised snapshot (hidden cells/rows are not part of it)", "§6 C09"),
  "C10": ("(A) display() on a fork vs rendering recomputed from the snapshot; (B) model-free pair monitor: same history with/without display() interposed",
-         "exploration: ~280k history pairs and ~110k renderings per quick run; for histories <= 30 ops display() is interposed before each single op, before every op and before random subsets; full snapshots after every op and the final display() must be equal",
+         "exploration with an exhaustive sub-domain: every Unicode scalar value rendered by display() (followed by text / right-hand neighbour overwritten / appended to a narrow and a wide base); plus ~280k history pairs and ~110k renderings per quick run; for histories <= 30 ops display() is interposed before each single op, before every op and before random subsets; full snapshots after every op and the final display() must be equal",
          "a non-placeholder cell after a double-width lead may be rendered or skipped (statement silent)", "§6 C10"),
  "C11": ("differential event-log monitor: ByteParser on chunks vs the same recogniser on std's lossy decoding of the concatenation",
          "exploration with an exhaustive sub-domain: every boundary/ill-formed UTF-8 form and each of its truncations in four contexts, all byte strings of length <= 3 over a 24-byte class alphabet, each whole, at every 2-way cut, every 3-way cut (strings <= 9 bytes) and byte-at-a-time; random byte strings, mutated sessions and mode switches between chunks",
@@ -61,7 +61,7 @@ CHECKS = {
          "exploration with an exhaustive sub-domain: default stops and HT from every column incl. pending wrap for every width 1..=140; random HTS/TBC sequences followed by an HT walk; width changes between setting and using a stop",
          "the stop set is observed through the public tabstops field and compared exactly, also beyond the right edge", "§6 C18"),
  "C19": ("generated OSC strings with the expected title/icon known by construction, real Screen, all terminators/introducers/cuts",
-         "exploration with an exhaustive sub-domain: 2 introducers x 19 codes x 3 terminators x 108 payloads incl. every printable ASCII singleton, every 2-way cut for codes 0/1/2, Parser and ByteParser; all ordered pairs (and some triples) of OSC strings on one parser; random payloads up to 4096 characters",
+         "exploration with an exhaustive sub-domain: 2 introducers x 19 codes x 3 terminators x 130 payloads incl. every printable ASCII singleton and byte-aliases of grammar characters, every 2-way cut for codes 0/1/2, Parser and ByteParser; every Unicode scalar value inside a payload, bare and after ESC; all ordered pairs (and some triples) of OSC strings on one parser; payload lengths up to 2^20+37",
          "codes R and P excluded (see C03)", "§6 C19"),
  "C20": ("exhaustive table check through draw(): cell text vs golden tables derived independently of the repository; API, Parser and ByteParser paths",
          "exhaustive on the finite domain (256 code points x 4 tables x {G0,G1} x {SI,SO} via the API; every drawable byte x the same configurations via ByteParser and Parser in 8-bit mode; defaults after construction/RIS; every designator final; UTF-8 mode ignores shifts/designators) plus per-step judging of SO/SI/designations in random traffic",
